@@ -289,7 +289,8 @@ def formulas_of(prop):
 
 
 # ---------------------------------------------------------------- MANIFEST texts (bin/genmanifest)
-TECH_SYS = "explicit TLA+ spec model-checked with TLC + trace validation of the real controllers (TLC-generated schedules replayed, log-driven TLA+ monitor)"
+TECH_SYS = ("explicit TLA+ spec model-checked with TLC + trace validation of the real controllers (TLC-generated behaviours - random simulation and goal-directed breadth-first "
+            "search for hard-to-reach states - replayed step by step with the specification's state compared after every step, seeded random runs, log-driven TLA+ monitor)")
 NOTE_SYS = ("Trusted: TLC, the Json/IOUtils community modules, Go runtime, client-go generated clients/listers, the harness's SimAPI semantics and the "
             "projection/concretisation maps. Bounded: small constants for the exhaustive design check; finitely many schedules on the real code.")
 
